@@ -116,6 +116,8 @@ pub struct Director {
     node_view: Vec<u64>,
     groups: Vec<u8>,
     hidden: Option<(u64, usize)>,
+    hidden_lossy_views: u64,
+    hidden_loss_pct: u64,
     /// (view, payload x, payload y, nodes that only get to see votes for x)
     steer: Option<(u64, validator::PayloadHash, validator::PayloadHash, Vec<usize>)>,
     res: CaseResult,
@@ -140,6 +142,8 @@ impl Director {
             node_view: vec![0; n],
             groups: vec![0; n],
             hidden: None,
+            hidden_lossy_views: 0,
+            hidden_loss_pct: 0,
             steer: None,
             res: CaseResult::default(),
             crashed_once: false,
@@ -235,11 +239,18 @@ impl Director {
     fn hidden_filter2(&self, id: usize, dest: usize, from: usize) -> bool {
         let Some((hv, lucky)) = self.hidden else { return true };
         let (k, v) = kind_of(&self.net.msgs[id]);
+        // commit votes of the hidden view only reach the lucky node ...
         if k == 1 && v == hv && dest != lucky {
             return false;
         }
-        if k == 3 && v == hv + 1 && from == lucky {
+        // ... which is cut off from then on (nobody learns the certificate from it)
+        if v > hv && (from == lucky || dest == lucky) {
             return false;
+        }
+        // in the following views proposals and votes get through only partially, so that
+        // re-proposals are voted by some replicas only and high votes spread over several views
+        if (k == 0 || k == 1) && v > hv && v <= hv + self.hidden_lossy_views {
+            return vcommon::hash_of(&(id, dest, hv)) % 100 >= self.hidden_loss_pct;
         }
         true
     }
@@ -507,6 +518,8 @@ impl Director {
         if self.pol.hidden_commit {
             let hv = self.rng.gen_range(1..8);
             self.hidden = Some((hv, *correct.choose(&mut self.rng).unwrap()));
+            self.hidden_lossy_views = self.rng.gen_range(0..5);
+            self.hidden_loss_pct = self.rng.gen_range(20..70);
         }
         self.settle().await;
         for s in 0..self.pol.steps {
